@@ -5,6 +5,61 @@ EVENT_ADT = "quick_xml::events::Event"
 CRATES = ("netconf", "bgpfu_junos_agent")
 
 
+_PREDS = {}
+
+
+def load_predicates(fx):
+    """Workspace functions that are pure predicates — `fn p(..) -> bool { <one expression> }` — are expanded where an arm's guard calls
+    them, so that a guard moved into such a helper (`is_base_element(ns, &tag, b"ok")`) reads like the guard written out."""
+    _PREDS.clear()
+    for it in fx.item_list:
+        if it.get("kind") in ("Fn", "AssocFn") and it.get("output") == "bool" and it.get("crate") in CRATES and not it.get("async"):
+            t = fx.thir.get(it["qdef"])
+            if t is None:
+                continue
+            body = T.user_body(t)
+            while isinstance(body, dict) and body.get("k") in ("Block", "Scope") and not body.get("stmts") and body.get("expr") is not None:
+                body = body["expr"]
+            if not isinstance(body, dict) or body.get("k") in ("Block", "Loop", "Match"):
+                continue
+            names = []
+            for prm in t.get("params") or []:
+                q = prm.get("pat") or {}
+                while q.get("k") == "Deref":
+                    q = q["sub"]
+                names.append(q.get("name") if q.get("k") == "Bind" else None)
+            if None in names:
+                continue
+            _PREDS[it["qdef"]] = (names, body)
+
+
+def _subst(n, env):
+    if isinstance(n, dict):
+        if n.get("k") == "Var" and n.get("name") in env:
+            return env[n["name"]]
+        return {k: _subst(v, env) for k, v in n.items()}
+    if isinstance(n, list):
+        return [_subst(v, env) for v in n]
+    return n
+
+
+def expand_predicates(e, depth=0):
+    """The guard with calls to workspace predicate functions replaced by their bodies (arguments substituted)."""
+    if not _PREDS or e is None or depth > 3:
+        return e
+    if isinstance(e, list):
+        return [expand_predicates(x, depth) for x in e]
+    if not isinstance(e, dict):
+        return e
+    if e.get("k") == "Call" and e.get("fn"):
+        key = T.strip_generics(e["fn"])
+        hit = _PREDS.get(e["fn"]) or _PREDS.get(key)
+        if hit and len(hit[0]) == len(e.get("args") or []):
+            env = {nm: expand_predicates(a, depth) for nm, a in zip(hit[0], e["args"])}
+            return expand_predicates(_subst(hit[1], env), depth + 1)
+    return {k: (expand_predicates(v, depth) if isinstance(v, (dict, list)) else v) for k, v in e.items()}
+
+
 class Arm:
     def __init__(self, a, lets=None):
         self.lets = lets or {}
@@ -26,7 +81,7 @@ class Arm:
         else:
             self.ns_pat = "other"
             self.kinds = {"?"}
-        self.guard = a.get("guard")
+        self.guard = expand_predicates(a.get("guard"))
         self.gtext = X.ntext(self.guard) if self.guard is not None else ""
         self.name = None
         self.name_via = None
@@ -237,6 +292,7 @@ def _walk_nested(fn, t, node, depth, parent_arm, out):
 
 
 def reader_loops(fx):
+    load_predicates(fx)
     out = []
     for name, t in sorted(fx.thir.items()):
         if t.get("crate") not in CRATES or "::tests::" in name or "{closure" in name:
